@@ -1,5 +1,5 @@
 (* C13/Properties.v — the property's clauses as theorems (statements only; proofs are in Proofs*.v). *)
-From Verif Require Import Common.Base C13.Model C13.Spec C13.Proofs1 C13.Proofs2 C13.Proofs3 C13.Proofs4 C13.Proofs5 C13.Proofs6 C13.Proofs7 C13.Proofs8 C13.Instances.
+From Verif Require Import Common.Base C13.Model C13.Spec C13.Proofs1 C13.Proofs2 C13.Proofs3 C13.Proofs4 C13.Proofs5 C13.Proofs6 C13.Proofs7 C13.Proofs8 C13.Proofs9 C13.Instances.
 From Verif Require Import Generated.C13CfgSchema.
 From Coq Require Import String.
 
@@ -274,3 +274,30 @@ Theorem encode_decode_refuted : exists d v,
   overlay (o_strip d) (Some (encode_o v)) <> o_strip v.
 Proof. exact encode_decode_refuted_l. Qed.
 Print Assumptions encode_decode_refuted.
+
+(* ---- instances of a section; handing the effective configuration to the extensions ---------- *)
+
+(* "every component" — also every NAMED instance type/name: the typed configuration of instance i
+   is the complete decode of the body written under i, and depends on no sibling entry *)
+Theorem section_instance_own_body : forall name d sec i,
+  lookup i (decode_section name d sec) = option_map (decode_model name d) (lookup i sec).
+Proof. exact section_instance_l. Qed.
+Print Assumptions section_instance_own_body.
+
+Theorem section_instances_independent : forall name d sec sec' i,
+  lookup i sec = lookup i sec' -> lookup i (decode_section name d sec) = lookup i (decode_section name d sec').
+Proof. exact section_independent_l. Qed.
+Print Assumptions section_instances_independent.
+
+Theorem section_written_reflected : forall name d sec i m p s0 s,
+  lookup i sec = Some m -> leaf_at d p s0 -> written (Some m) p s ->
+  exists v, lookup i (decode_section name d sec) = Some v /\ leaf_at v p s.
+Proof. exact section_written_l. Qed.
+Print Assumptions section_written_reflected.
+
+(* every ConfigWatcher, whatever its position and whatever the watchers before it merged into
+   their copies, is handed exactly the effective configuration; the collector's conf is intact *)
+Theorem watchers_isolated : forall exts conf,
+  Forall (fun r => fst r = conf) (fst (notify conf exts)) /\ snd (notify conf exts) = conf.
+Proof. exact notify_isolated_l. Qed.
+Print Assumptions watchers_isolated.
